@@ -16,18 +16,30 @@ theorem amp_not_enc (s) : (38 : UInt8) ∉ urlEncode s true := enc_no s 38 (by d
 theorem eq_not_enc (s) : (61 : UInt8) ∉ urlEncode s true := enc_no s 61 (by decide) (by decide) (by decide)
 theorem plus_not_enc (s) : (43 : UInt8) ∉ urlEncode s true := enc_no s 43 (by decide) (by decide) (by decide)
 
+theorem cstr_of_not_mem (s : List UInt8) (h : (0 : UInt8) ∉ s) : cstr s = s := by
+  unfold cstr
+  induction s with
+  | nil => rfl
+  | cons x r ih =>
+    have hx : x ≠ 0 := fun e => h (by simp [e])
+    have hr : (0 : UInt8) ∉ r := fun e => h (List.mem_cons_of_mem _ e)
+    simp [List.takeWhile_cons, hx, ih hr]
+
+theorem cstr_enc (s : List UInt8) : cstr (urlEncode s true) = urlEncode s true :=
+  cstr_of_not_mem _ (enc_no s 0 (by decide) (by decide) (by decide))
+
 theorem query_roundtrip (d : Dict) (hs : Sorted d) (hk : ∀ kv ∈ d, kv.1 ≠ []) : parseQuery (params d) = d := by
   -- the dictionary of encoded pairs
   have hm : (d.map fun kv => (urlEncode kv.1 true, urlEncode kv.2 true)) = d.map encPair := rfl
-  have hnd : ((d.map encPair).map (·.1)).Nodup := by
+  have hnd : ((d.map encPair).map (fun kv => cstr kv.1)).Nodup := by
     rw [List.map_map]
-    have : (d.map ((fun x => x.1) ∘ encPair)) = (d.map (·.1)).map (fun k => urlEncode k true) := by
-      rw [List.map_map]; rfl
-    rw [this]
     have hn := sorted_nodup_keys d hs
     unfold List.Nodup at hn ⊢
-    rw [List.pairwise_map]
-    exact hn.imp (fun {a b} hab h => hab (enc_inj a b h))
+    rw [List.pairwise_map] at hn ⊢
+    refine hn.imp ?_
+    intro a b hab h
+    simp only [Function.comp, encPair, cstr_enc] at h
+    exact hab (by rw [enc_inj a.1 b.1 h])
   obtain ⟨hes, hep⟩ := ofPairs_sorted_perm (d.map encPair) hnd
   generalize he : ofPairs (d.map encPair) = e at hes hep
   have hin : ∀ kv ∈ e, ∃ kv0 ∈ d, kv = encPair kv0 := by
@@ -62,8 +74,8 @@ theorem query_roundtrip (d : Dict) (hs : Sorted d) (hk : ∀ kv ∈ d, kv.1 ≠ 
       intro a _; exact decPair_encPair a
     rw [hid] at this
     exact this
-  have hnd2 : ((e.map fun kv => (urlDecode kv.1, urlDecode kv.2)).map (·.1)).Nodup :=
-    (hperm.map (·.1)).nodup_iff.mpr (sorted_nodup_keys d hs)
+  have hnd2 : ((e.map fun kv => (urlDecode kv.1, urlDecode kv.2)).map (fun kv => cstr kv.1)).Nodup :=
+    (hperm.map (fun kv => cstr kv.1)).nodup_iff.mpr (sorted_nodup_keys d hs)
   obtain ⟨a, b⟩ := ofPairs_sorted_perm _ hnd2
   exact sorted_perm_eq _ _ a hs (b.trans hperm)
 
@@ -96,15 +108,15 @@ theorem dicSet_sorted (d : Dict) (k v : List UInt8) (hs : Sorted d) : Sorted (di
     obtain ⟨k', v'⟩ := e
     have hs' := List.pairwise_cons.mp hs
     unfold dicSet
-    by_cases h1 : bytesLt k k' = true
+    by_cases h1 : strLt k k' = true
     · simp only [h1, if_true]
       refine List.pairwise_cons.mpr ⟨?_, hs⟩
       intro x hx
       rcases List.mem_cons.mp hx with rfl | hx
       · exact h1
-      · exact bytesLt_trans _ _ _ h1 (hs'.1 x hx)
+      · exact strLt_trans _ _ _ h1 (hs'.1 x hx)
     · simp only [h1]
-      by_cases h2 : bytesLt k' k = true
+      by_cases h2 : strLt k' k = true
       · simp only [h2, if_true]
         refine List.pairwise_cons.mpr ⟨?_, ih hs'.2⟩
         intro x hx
